@@ -1,3 +1,67 @@
 (* C10/Driver.v — C10 runs the same extracted driver as C09 (the model is shared); the answer
-   additionally carries what [spec] (C09/Model.v) says, which the check compares too. *)
+   additionally carries what [spec] (C09/Model.v) says, which the check compares too.
+   Round 5: [run_stream] — parse_async over a scripted body (C10/Stream.v), run for the correspondence. *)
 From RM Require Export C09.Driver.
+From Coq Require Import ZArith List Bool.
+From RM Require Import Base.Word C08.Model C11.Model C09.Model C09.Grammar C10.Stream C09.Driver.
+Import ListNotations.
+Open Scope Z_scope.
+
+Definition cstream := @sst rle pst.
+Definition cstep_stream : cstream -> @sres rle pst := step_stream rle cllen pst recog_pst bump_pst lineno_pst.
+
+Definition drive_stream_c (lines : list rle) (tail : Z) (script : list sev) : outcome (result pst * cstream) :=
+  drive_stream rle cllen pst init_pst recog_pst bump_pst lineno_pst lines tail script.
+Definition spec_stream_c (lines : list rle) (tail : Z) (script : list sev) : result pst :=
+  spec_stream rle pst init_pst recog_pst lineno_pst lines tail script.
+
+(* the loop-level view of a stream step, for the callback trace of C09/Driver.v ([tr_step_cb]) *)
+Definition unwrap (r : @sres rle pst) : stepres rle pst :=
+  match r with
+  | SNext x => Next (core x)
+  | SDone res x => Done res (core x)
+  | SPanic t => StPanic t
+  end.
+
+(* runs the SAME [step_stream] as [iter_stream] and only looks at the states it goes through ([iter_tr_stream_run]) *)
+Fixpoint iter_tr_stream (p : positive) (x : cstream) (a : tracc) : @sres rle pst * tracc :=
+  match p with
+  | xH => let r := cstep_stream x in (r, tr_step_cb a (core x) (unwrap r))
+  | xO q => match iter_tr_stream q x a with
+            | (SNext x1, a1) => iter_tr_stream q x1 a1
+            | ra => ra
+            end
+  | xI q => let r := cstep_stream x in
+            let a0 := tr_step_cb a (core x) (unwrap r) in
+            match r with
+            | SNext x1 => match iter_tr_stream q x1 a0 with
+                          | (SNext x2, a2) => iter_tr_stream q x2 a2
+                          | ra => ra
+                          end
+            | _ => (r, a0)
+            end
+  end.
+
+(* the outcome (same record as run_case; error code 8 = the body failed: SymbolError::LoadError) + callback trace *)
+Definition run_stream (lines : list rle) (tail : Z) (script : list sev) : sym_out * tracc :=
+  let '(res, tr) := iter_tr_stream (fuel_for rle cllen lines tail)
+                                   (init_stream rle cllen pst init_pst lines tail script) init_tr in
+  let none k c l := Build_sym_out k c l 0 0 0 0 0 None 0 0 0 0 None in
+  (match res with
+   | SDone r x =>
+       let s := core x in
+       let '(sk, sc, sl) := match spec_stream_c lines tail script with
+                            | ROk _ => (0, 0, 0)
+                            | RErr c l => (1, c, l)
+                            end in
+       let mk k c l t :=
+         Build_sym_out k c l (cbsum s) (ncb s) (nrd s) (maxsp s) (b_cap (buf s)) t (count_dropped (log s)) sk sc sl None in
+       match r, table_of r with
+       | ROk _, Ret t => mk 0 0 0 t
+       | ROk _, Panic tag => mk 2 tag 0 None
+       | ROk _, _ => mk 2 (-2) 0 None
+       | RErr c l, _ => mk 1 c l None
+       end
+   | SNext _ => none 3 0 0
+   | SPanic t => none 2 t 0
+   end, tr).
